@@ -291,6 +291,20 @@ impl Scenario for RealConnectSim {
         out.log_digest = log.0;
         // ---- C11: order, at most once, pacing bound
         let mut v11 = |rule: &str, d: String| out.violations.push(Violation::new("C11", rule, csig.clone(), d));
+        // every candidate in front of the first listening one fails at once (refusal or socket
+        // setup); each failure must start the next attempt, so the first listening candidate is
+        // always reached - whatever the operation then reports
+        if let Some(fl) = first_listening {
+            if attempted[fl].unwrap_or(0) == 0 {
+                v11(
+                    "not_started_after_failure",
+                    format!(
+                        "candidates {:?} (socket setup of an extra first candidate fails: {}): the first listening candidate {} was never attempted although everything in front of it fails immediately; result {:?}",
+                        case.listening, case.setup_fails_first, fl, res.as_ref().err()
+                    ),
+                );
+            }
+        }
         for (i, a) in attempted.iter().enumerate() {
             if let Some(k) = a {
                 if *k > 1 {
